@@ -152,6 +152,11 @@ def gen_solution(rng, kinds=None, hostile=True):
     c = rng.random()
     if c < 0.7:
         meta["computation_time"] = rng.choice([0.5, 1, 12.345678901234567, 1e-5, 3e-7, 1e20, rng.uniform(1e-9, 1e4)])
+        if rng.random() < 0.3:
+            # a measured time is often a numpy scalar (the sum of per-step timings, a step count times dt)
+            import numpy as np
+            meta["computation_time"] = rng.choice([np.float64(rng.uniform(1e-4, 50.0)), np.sum(np.array([0.0125, 0.1344, 1e-4])),
+                                                   np.int64(rng.randint(1, 90))])
     if rng.random() < 0.7:
         meta["processor_name"] = rng.choice(["Intel Core i7-8550U CPU @ 1.80GHz", "AMD <Ryzen> & \"co\" 'x'", "x",
                                              "M1 üß中", "a  b"])
